@@ -379,6 +379,9 @@ def judge(stats, report, spec):
                sample={"text": spec['text'], "expected": (show(want)[:80] if not isinstance(want, tuple) or want[0] != 'multiset' else 'multiset')})
     case = {"text": spec['text'], "build": spec['build']}
     key = f"{spec['adverb']} | {spec['verbkind']} | " + ','.join(_opshape(o) for o in spec['operands'])
+    if len(spec['operands']) == 2 and all(o[0] == 'l' and o[1] for o in spec['operands']) and \
+            (_depth_of(spec['operands'][0]) != _depth_of(spec['operands'][1]) or any(_mixed_depth(o) for o in spec['operands'])):
+        key = key.replace(' | ', ' | depths:', 2).replace(' | depths:', ' | ', 1)     # mark the operand field only
     if got[0] == 'val' and spec.get('vartext'):
         # the same expression with the operand held in a variable (the expression compiler only sees variables)
         try:
@@ -454,6 +457,17 @@ def _has_char_atoms(c):
     if c[0] == 'd':
         return any(_has_char_atoms(k_) or _has_char_atoms(v_) for k_, v_ in c[1])
     return c[0] in 'cy'
+
+
+def _depth_of(c):
+    return 0 if c[0] != 'l' else 1 + max((_depth_of(x) for x in c[1]), default=0)
+
+
+def _mixed_depth(c):
+    """some list inside c has members of different depth (an atom next to a list, or lists of different depth)"""
+    if c[0] != 'l':
+        return False
+    return len({_depth_of(x) for x in c[1]}) > 1 or any(_mixed_depth(x) for x in c[1])
 
 
 def _has_reals(c):
